@@ -453,8 +453,12 @@ def epos_rules(prog, R, trimmer):
                     cb = closure_of_arg(prog, f, t, len(t.args) - 1)
                     sep = closure_separator(cb) if cb else None
             g_len = head_guard_ok(prog, f)
+            # ... and it is the FIRST piece of the split (mutation survey: `.next_back()` passes the suite)
+            sels = [c.path for c in calls if c.path in ('std::iter::Iterator::next', 'std::iter::Iterator::nth', 'std::iter::Iterator::last',
+                                                         'std::iter::DoubleEndedIterator::next_back', 'std::iter::DoubleEndedIterator::nth_back')]
+            from_head = from_head and sels == ['std::iter::Iterator::next']
             R.add('EPOS-5', f, 'id-guard', g_flag and g_len and from_head and sep == 32, site(f, st.line),
-                  'id extracted only if requested (%s) and header extent > 1 (%s); taken from head() up to the first 0x%s' % (g_flag, g_len, '%02x' % sep if sep is not None else '?'))
+                  'id extracted only if requested (%s) and header extent > 1 (%s); taken as the first piece of head() split at 0x%s (selectors %s)' % (g_flag, g_len, '%02x' % sep if sep is not None else '?', [x.rsplit('::', 1)[-1] for x in sels]))
     R.floor('UNIT-4', 1)
     R.floor('EPOS-5', 1)
     # FASTA InvalidStart: found is the compared byte
@@ -818,16 +822,18 @@ def iter_rules(prog, R):
                         bad.append('length of field `%s`, which is not the wrapped iterator' % what)
                     continue
                 if kind == 'field':
-                    # a stored length: must be written by next()/next_back()
-                    written = False
-                    for tr2, m2 in (('std::iter::Iterator', 'next'), ('std::iter::DoubleEndedIterator', 'next_back')):
+                    # a stored length: must be written by every stepping method the type has
+                    # (seed C20-r4b: decremented in next() only, stale after a step from the back)
+                    stale = []
+                    for tr2, m2 in (('std::iter::Iterator', 'next'), ('std::iter::DoubleEndedIterator', 'next_back'),
+                                    ('std::iter::Iterator', 'nth'), ('std::iter::DoubleEndedIterator', 'nth_back')):
                         for nb in prog.by_key.get('<%s as %s>::%s' % (self_ty, tr2, m2), []):
-                            for blk in nb.blocks:
-                                for s in blk.stmts:
-                                    if s.k == 'assign' and s.place.local == 1 and [p['name'] for p in s.place.proj if p['k'] == 'field'] == [what]:
-                                        written = True
-                    if not written:
-                        bad.append('field `%s` is never updated by next()/next_back()' % what)
+                            w = any(s.k == 'assign' and s.place.local == 1 and [p['name'] for p in s.place.proj if p['k'] == 'field'] == [what]
+                                    for blk in nb.blocks for s in blk.stmts)
+                            if not w:
+                                stale.append(m2)
+                    if stale:
+                        bad.append('field `%s` is not updated by %s()' % (what, '(), '.join(stale)))
                 else:
                     bad.append('%s %s' % (kind, what))
             R.add('ITER-1', b, 'length-is-live', not bad and bool(srcs), site(b, b.span['lo']),
